@@ -451,6 +451,35 @@ func vfGenRec(o vfRecGenOpt) func(t *rapid.T) vfRecCase {
 		if !o.bad {
 			c.ProcessFrame = rapid.IntRange(0, 3).Draw(t, "pf") == 0
 		}
+		if o.winTraj && rapid.IntRange(0, 7).Draw(t, "longrefused") == 0 {
+			// one long unbroken motion run during which every start is refused (window closed), the refusal ending
+			// at a run length around a power of two: the retry must come with the very next motion frame
+			if c.Cfg.WinStart == c.Cfg.WinEnd {
+				c.Cfg.WinStart, c.Cfg.WinEnd = 600, 720
+			}
+			closedT, openT := int64(c.Cfg.WinEnd)*60+3, int64(c.Cfg.WinStart)*60
+			base := rapid.SampledFrom([]int{128, 256, 256, 256, 512, 1024, 65536}).Draw(t, "pow")
+			if base == 65536 && rapid.IntRange(0, 3).Draw(t, "really") > 0 {
+				base = 256
+			}
+			L := base + rapid.IntRange(-3, 5).Draw(t, "off")
+			c.Ev = c.Ev[:rapid.IntRange(0, len(c.Ev)).Draw(t, "keep")]
+			if len(c.Ev) > 40 {
+				c.Ev = c.Ev[:40]
+			}
+			for i := 0; i < 3; i++ {
+				c.Ev = append(c.Ev, vfEv{K: vfEvFrame, T: closedT})
+			}
+			for i := 0; i < L; i++ {
+				c.Ev = append(c.Ev, vfEv{K: vfEvFrame, M: true, T: closedT})
+			}
+			for i := rapid.IntRange(1, 6).Draw(t, "after"); i > 0; i-- {
+				c.Ev = append(c.Ev, vfEv{K: vfEvFrame, M: true, T: openT})
+			}
+			c.Ev = append(c.Ev, vfEv{K: vfEvFrame, T: openT})
+			c.Faults.Check, c.Faults.MStart = nil, nil
+			return c
+		}
 		if o.winTraj && c.Cfg.WinStart != c.Cfg.WinEnd && rapid.Bool().Draw(t, "traj") {
 			// wall-clock trajectory relative to the absolute window times: every frame gets a time of day
 			// on, 1 ns before or 1 ns after a boundary (or midnight), or anywhere, on any of three days
@@ -520,17 +549,17 @@ func vfValidRecCase(c vfRecCase) string {
 	if g.Edge < 0 || g.W-2*g.Edge < 1 || g.H-2*g.Edge < 1 || g.W > 64 || g.H > 64 {
 		return "bad geometry"
 	}
-	if len(c.Ev) > 5000 {
+	if len(c.Ev) > 70000 {
 		return "too many events"
 	}
 	return ""
 }
 
-const vfRecDomain = "generated: fps 1-9, preview 0-3 s, trigger-frames 0-4 (preview*fps+trigger>=1), min 0-3 s <= max <= 5 s, 2x2..6x5 frames, edge 0-1; event lists of up to 300 events built from segments tuned to the configuration (still runs around the ring size, motion runs of trigger-1/trigger/trigger+1, sustained motion over several max-length recordings, blips, motion placed at the limit, random and alternating bits) with bad frames, resets, window open/closed and failing disk checks / starts interleaved; the real detector is driven by a toggling interior pixel and the motion bits used by the oracle are the ones the processor reported. "
+const vfRecDomain = "generated: fps 1-9, preview 0-3 s, trigger-frames 0-4 (preview*fps+trigger>=1), min 0-3 s <= max <= 5 s (one case in 8 with previews to 15 s and limits to 40 s, one in 16 at the shipped scale: 9/30 fps, max-secs 30-600, streams long enough for two recordings that reach the cap), 2x2..6x5 frames, edge 0-1; event lists of up to 300 events built from segments tuned to the configuration (still runs around the ring size, motion runs of trigger-1/trigger/trigger+1, sustained motion over several max-length recordings, blips, motion placed at the limit, random and alternating bits) with bad frames, resets, window open/closed and failing disk checks / starts interleaved; the real detector is driven by a toggling interior pixel and the motion bits used by the oracle are the ones the processor reported. "
 
 var (
-	vfOptC01 = vfRecGenOpt{bad: true, reset: true, faultsCheckStart: true, window: true, maxEv: 300, variants: true}
-	vfOptC04 = vfRecGenOpt{bad: true, reset: true, faultsCheckStart: true, window: true, winTraj: true, maxEv: 200, variants: true}
+	vfOptC01 = vfRecGenOpt{bad: true, reset: true, faultsCheckStart: true, window: true, maxEv: 300, variants: true, scale: true}
+	vfOptC04 = vfRecGenOpt{bad: true, reset: true, faultsCheckStart: true, window: true, winTraj: true, maxEv: 200, variants: true, scale: true}
 )
 
 func TestVF_C01(t *testing.T) {
@@ -549,7 +578,7 @@ func TestVF_C03(t *testing.T) {
 }
 
 func TestVF_C04(t *testing.T) {
-	kit.Drive(t, "C04", "TestVF_C04", vfRecDomain+"Oracle: the storage check is made at a frame iff no recording is active, the frame has motion, the motion run since the last still frame / recording end is >= max(trigger-frames,1) and the window (closed form start<=tod<end mod 24h) is open; StartRecording follows iff the check passed; a recording starts iff both succeeded; never on a motionless frame. Non-trivial: at least one refused start (window/check/start) and one successful start, with a window edge inside a motion run or a storage refusal.",
+	kit.Drive(t, "C04", "TestVF_C04", vfRecDomain+"Oracle: the storage check is made at a frame iff no recording is active, the frame has motion, the motion run since the last still frame / recording end is >= max(trigger-frames,1) and the window (closed form start<=tod<end mod 24h) is open; StartRecording follows iff the check passed; a recording starts iff both succeeded; never on a motionless frame. Non-trivial: at least one refused start (window/check/start) and one successful start, with a window edge inside a motion run or a storage refusal. One case in 8 is a single motion run of 125-1029 (rarely 65533-65541) frames with every start refused by the window, the window opening at a run length around a power of two.",
 		vfGenRec(vfOptC04), vfRunRecProp(4))
 }
 
